@@ -22,7 +22,7 @@ try:
     # a change is evaluated on the tree it was written against when a later repair of /repo has
     # rewritten the lines it touches (SEED_BASE, recorded as applies_to_repo_commit)
     base = "HEAD"
-    if subprocess.run(["git", "-C", "/repo", "apply", "--check", patch], capture_output=True).returncode != 0 and os.environ.get("SEED_BASE"):
+    if os.environ.get("SEED_BASE") and (os.environ.get("SEED_FORCE_BASE") or subprocess.run(["git", "-C", "/repo", "apply", "--check", patch], capture_output=True).returncode != 0):
         base = os.environ["SEED_BASE"]
         meta["applies_to_repo_commit"] = base
     subprocess.check_call(["git", "-C", "/repo", "worktree", "add", "-q", "--detach", wt, base])
